@@ -129,8 +129,12 @@ func ioSupported(f ioFmt, d ref.DT) bool {
 		return v
 	}
 	tensor.VerifResetPools()
+	pshape := []int{3}
+	if f.name == "csv" {
+		pshape = []int{1, 3} // WriteCSV refuses 1-d tensors
+	}
 	vals := c14Vals(d, 3, "id")
-	t := mkContig(d, []int{3}, vals)
+	t := mkContig(d, pshape, vals)
 	ok := false
 	o := call(func() error {
 		p, e := f.enc(t)
@@ -264,6 +268,17 @@ func c14Case(r *core.Run, f ioFmt, d ref.DT, shape []int, lay, vs string, mbits 
 
 // c14Tag recognises the preconditions of the recorded C14 findings.
 func c14Tag(fmtName string, d ref.DT, shape []int, lay string, t *tensor.Dense, kind string) string {
+	// precondition of F-C14-csv-empty-string-row: a single-column string tensor containing "" - the row is written as
+	// an empty line, which encoding/csv skips when reading
+	if fmtName == "csv" && d.Name == "string" && len(shape) == 2 && shape[1] == 1 && (kind == "wrong-shape" || kind == "unreadable") {
+		if vals, err := atlas.Logical(t); err == nil {
+			for _, v := range vals {
+				if v == "" {
+					return "[KF:csv-empty-string-row]"
+				}
+			}
+		}
+	}
 	return ""
 }
 
